@@ -175,6 +175,42 @@ def check(repo, res, tier):
                 'C17.S2', s, u, 'update_allocation(t, schedule[t])',
                 short(um) if ok else 're-planning records %s for %s, not the machine it is submitted on' % (
                     short(um), short(ut)))
+    # the scheduler core adds nothing to what the algorithm proposed: no (task, machine) pair is written into a
+    # schedule by any Scheduler method (it only removes the pairs it has submitted)
+    n_core = 0
+    for m_ in sorted(repo.cls('Scheduler').methods.values(), key=lambda x: x.qual):
+        if m_.name == '__init__':
+            continue
+        n_core += 1
+        for n in walk_no_nested(m_.node):
+            tgt = None
+            if isinstance(n, (ast.Assign, ast.AugAssign, ast.AnnAssign)):
+                for t in (n.targets if isinstance(n, ast.Assign) else [n.target]):
+                    if isinstance(t, ast.Subscript) and isinstance(t.value, ast.Name):
+                        tgt = t.value.id
+            elif isinstance(n, ast.Call) and isinstance(n.func, ast.Attribute) and n.func.attr in ('update', 'setdefault', '__setitem__') \
+                    and isinstance(n.func.value, ast.Name):
+                tgt = n.func.value.id
+            if tgt is None:
+                continue
+            # is that local a schedule: handed to _process_current_schedule / returned next to the plan / got from the algorithm
+            is_sched = False
+            for x in walk_no_nested(m_.node):
+                if isinstance(x, ast.Call) and call_name(x) == '_process_current_schedule' and any(
+                        isinstance(a_, ast.Name) and a_.id == tgt for a_ in x.args[:1]):
+                    is_sched = True
+                if isinstance(x, ast.Assign) and isinstance(x.value, ast.Call) and call_name(x.value) in ('run', '_generate_current_schedule'):
+                    for t in x.targets:
+                        names = [e.id for e in (t.elts if isinstance(t, (ast.Tuple, ast.List)) else [t]) if isinstance(e, ast.Name)]
+                        if tgt in names:
+                            is_sched = True
+            if tgt == (s.params[1] if m_ is s else None):
+                is_sched = True
+            if is_sched:
+                res.bad('C17.S3', m_, n, 'the scheduler core adds no pair to the schedule the algorithm proposed',
+                        '%s writes a (task, machine) pair into the schedule `%s` itself (%s): a task is submitted on a machine '
+                        'the plan-following algorithm did not name for it' % (m_.qual, tgt, short(ast.unparse(n), 60)))
+    res.ok('C17.S3', s, None, 'the scheduler core adds no pair to the schedule the algorithm proposed', '%d methods' % n_core)
     c = repo.func('Cluster.allocate_task_to_cluster')
     cf = Frame(c)
     res.analysed(c, 0)
